@@ -161,9 +161,60 @@ def cases_plans(draw):
     return {'fs': h['fs'], 'picks': h['picks'], 'cut': draw(st.one_of(st.none(), st.none(), st.integers(0, 10 ** 6)))}
 
 
+def check_writer_index(case, rec):
+    """index file produced by TdmsWriter itself (incl. append sessions): reads with and without it must agree"""
+    from nptdms import TdmsFile
+    from vf import wprog as W
+    prog = case
+    rec.label('writer_index', 'sessions=%d' % len(prog['sessions']))
+    with scratch_dir() as d:
+        try:
+            res = W.run_program(prog, d)
+        except Exception as e:      # noqa
+            rec.violation('writer:raised', describe_exc(e), key=exc_key(e))
+            return
+        if not res['accepted']:
+            rec.stat('programs_rejected')
+            return
+        nseg = sum(len(c) for c in prog['sessions'])
+        rec.nontrivial(nseg >= 2)
+        path = res['path']
+        snaps = {}
+        for have_index in (True, False):
+            if not have_index:
+                os.remove(path + '_index')
+            for api in ('read', 'open', 'read_metadata'):
+                ok, tf = rec.guard('writer_index:%s:%s' % ('with' if have_index else 'without', api),
+                                   lambda: getattr(TdmsFile, api)(path, raw_timestamps=True))
+                if not ok:
+                    continue
+                try:
+                    ok, sn = rec.guard('writer_index:%s' % api, lambda: snapshot(tf, api != 'read_metadata'))
+                    if ok:
+                        snaps[(have_index, api)] = sn
+                finally:
+                    tf.close()
+        for api in ('read', 'open', 'read_metadata'):
+            a, b = snaps.get((False, api)), snaps.get((True, api))
+            if a is not None and b is not None and a != b:
+                diff = [k for k in a if a.get(k) != b.get(k)] + [k for k in b if k not in a]
+                rec.violation('transparent_writer_index:' + api, 'reading with the writer\'s index file differs from reading '
+                              'without it at %r: %r vs %r' % (diff[:3], b.get(diff[0]), a.get(diff[0])))
+        # index alone describes the same objects and lengths
+        with open(path, 'rb') as f:
+            pass
+
+
+def _writer_programs():
+    from vf import wprog as W
+    return W.program(index=True).map(lambda p: dict(p, dest='path', index=True))
+
+
 def jobs(tier):
     if tier == 'quick':
         return [Job('files', 'hyp', lambda: cases_c01(max_segments=4), n=900),
-                Job('inheritance_plans', 'hyp', cases_plans, n=900)]
+                Job('inheritance_plans', 'hyp', cases_plans, n=900),
+                Job('writer_index', 'hyp', _writer_programs, n=700, check=check_writer_index)]
     return [Job('files', 'hyp', lambda: cases_c01(max_segments=6), n=40000),
-            Job('inheritance_plans', 'hyp', cases_plans, n=40000)]
+            Job('inheritance_plans', 'hyp', cases_plans, n=40000),
+            Job('writer_index', 'hyp', _writer_programs, n=25000, check=check_writer_index)]
